@@ -34,6 +34,55 @@ def observe(rec: bytes, oid):
     return o
 
 
+_CRC_TABLE = []
+for _i in range(256):
+    _c = _i
+    for _ in range(8):
+        _c = (_c >> 1) ^ 0xedb88320 if _c & 1 else _c >> 1
+    _CRC_TABLE.append(_c)
+_CRC_REV = {t >> 24: i for i, t in enumerate(_CRC_TABLE)}
+
+
+def crc32_suffix(prefix: bytes, target: int) -> bytes:
+    """4 bytes s such that zlib.crc32(prefix + s) == target (CRC-32 is linear: solved backwards)"""
+    import zlib
+    reg = target ^ 0xffffffff
+    idx = []
+    for _ in range(4):
+        i = _CRC_REV[reg >> 24]
+        idx.append(i)
+        reg = ((reg ^ _CRC_TABLE[i]) << 8) & 0xffffffff
+    idx.reverse()
+    r = zlib.crc32(prefix) ^ 0xffffffff
+    out = bytearray()
+    for i in idx:
+        out.append((r ^ i) & 0xff)
+        r = (r >> 8) ^ _CRC_TABLE[i]
+    s = bytes(out)
+    assert zlib.crc32(prefix + s) == target
+    return s
+
+
+def colliding_twin(rnd, field: bytes) -> bytes:
+    """another value of a field that COLLIDES with it under a cheap digest a memo might be keyed by: equal CRC-32,
+    equal byte sum / word xor (words permuted), equal low halves of every word, equal first / last 8 bytes"""
+    import zlib
+    n = len(field)
+    kind = rnd.choice(['crc', 'crc', 'perm', 'low', 'head', 'tail'])
+    if kind == 'crc' and n >= 8:
+        pre = bytes(rnd.getrandbits(8) for _ in range(n - 4))
+        return pre + crc32_suffix(pre, zlib.crc32(field))
+    if kind == 'perm' and n >= 16:
+        ws = [field[i:i + 8] for i in range(0, n, 8)]
+        rnd.shuffle(ws)
+        return b''.join(ws)
+    if kind == 'low' and n >= 8:
+        return b''.join(field[i:i + 4] + bytes(rnd.getrandbits(8) for _ in range(4)) for i in range(0, n, 8))[:n]
+    if kind == 'head':
+        return field[:8] + bytes(rnd.getrandbits(8) for _ in range(n - 8))
+    return bytes(rnd.getrandbits(8) for _ in range(n - 8)) + field[-8:]
+
+
 def run(ctx):
     rnd = random.Random(ctx.seed)
     nb = 2 if ctx.quick else 4
@@ -95,6 +144,22 @@ def run(ctx):
                     recs[oid] = bytes(rec)
                     obs.append(observe(bytes(rec), oid))
     ctx.extra['cross_field_equalities'] = n
+    # records decoded one after the other whose fields COLLIDE under a cheap digest (a result remembered per digest of
+    # the argument bytes / of the record must not come back for another record)
+    ncol = 0
+    for k in range(400 if ctx.quick else 20000):
+        a = bytearray(rnd.getrandbits(8) for _ in range(64))
+        b = bytearray(a) if rnd.random() < 0.5 else bytearray(rnd.getrandbits(8) for _ in range(64))
+        fo, fl = rnd.choice([(8, 32), (8, 32), (8, 32), (0, 8), (40, 8), (0, 52), (0, 64)])
+        twin = colliding_twin(rnd, bytes(a[fo:fo + fl]))
+        assert len(twin) == fl
+        b[fo:fo + fl] = twin
+        for tag, rec in (('a', a), ('b', b), ('a2', a)):
+            oid = 'col%d_%s' % (k, tag)
+            recs[oid] = bytes(rec)
+            obs.append(observe(bytes(rec), oid))
+        ncol += 1
+    ctx.extra['digest_colliding_pairs'] = ncol
     ctx.sample({'record_hex': bases[2].hex(), 'decoded': {k: v for k, v in obs[2 * 16384].items() if k != 'r'}})
     n, rej, results = validate_observations('KdRecord_Val', obs, ctx.workdir, timeout=1800)
     ctx.traces += n
